@@ -56,40 +56,45 @@ impl<V: Clone + PartialEq> RangeInclusiveMap<u32, V> {
     pub fn insert(&mut self, range: RangeInclusive<u32>, value: V) {
         assert!(range.start() <= range.end(), "range start must not exceed end");
         let (mut lo, mut hi) = (*range.start(), *range.end());
-        let old = std::mem::take(&mut *self.e);
-        let mut out: Vec<(RangeInclusive<u32>, V)> = Vec::with_capacity(old.len() + 2);
-        // 1. carve the new range out of every older range; coalesce equal-valued neighbours into it
-        for (r, v) in old {
-            let (s, t) = (*r.start(), *r.end());
+        let n = self.e.len();
+        // pass 1: widen [lo, hi] over equal-valued overlapping/adjacent neighbours (coalescing)
+        let mut i = 0;
+        while i < n {
+            let (s, t) = (*self.e[i].0.start(), *self.e[i].0.end());
             let overlaps = s <= hi && lo <= t;
             let adjacent = (t < lo && t + 1 == lo) || (hi < s && hi + 1 == s);
-            if (overlaps || adjacent) && v == value {
-                // same value: becomes part of the new contiguous range
+            if (overlaps || adjacent) && self.e[i].1 == value {
                 if s < lo {
                     lo = s;
                 }
                 if t > hi {
                     hi = t;
                 }
-                std::mem::forget(v);
-            } else if overlaps {
-                if s < lo {
-                    out.push((s..=lo - 1, v.clone()));
-                }
-                if t > hi {
-                    out.push((hi + 1..=t, v.clone()));
-                }
-                std::mem::forget(v);
-            } else {
-                out.push((r, v));
             }
+            i += 1;
         }
-        // 2. insert the new range at its sorted position
-        let mut pos = 0;
-        while pos < out.len() && *out[pos].0.start() < lo {
-            pos += 1;
+        // pass 2: rebuild the sorted list: remnants of older ranges left of the new range, the new
+        // range, remnants right of it (plain pushes, no element moves)
+        let mut out: Vec<(RangeInclusive<u32>, V)> = Vec::with_capacity(n + 2);
+        let mut i = 0;
+        while i < n {
+            let (s, t) = (*self.e[i].0.start(), *self.e[i].0.end());
+            if s < lo {
+                let end = if t < lo { t } else { lo - 1 };
+                out.push((s..=end, self.e[i].1.clone()));
+            }
+            i += 1;
         }
-        out.insert(pos, (lo..=hi, value));
-        *self.e = out;
+        out.push((lo..=hi, value));
+        let mut i = 0;
+        while i < n {
+            let (s, t) = (*self.e[i].0.start(), *self.e[i].0.end());
+            if t > hi {
+                let start = if s > hi { s } else { hi + 1 };
+                out.push((start..=t, self.e[i].1.clone()));
+            }
+            i += 1;
+        }
+        std::mem::forget(std::mem::replace(&mut *self.e, out));
     }
 }
